@@ -33,9 +33,91 @@ import numpy as np
 from .geo_common import PI, disagree as gdisagree, violate as gviolate, fline, floats
 
 TWO_PI = 2 * PI
-OTHER = {"trs": "kepler", "kepler": "trs"}
-SYS = {"t": "trs", "k": "kepler"}
-SYSTOK = {"trs": "t", "kepler": "k"}
+
+
+# ------------------------------------------------------------------ the families of position arrays with two systems
+class Family:
+    """a class of position arrays with exactly two systems and a registered conversion each way; the tokens `t` / `k` of
+    the operations and of the model stand for the first / second system"""
+    name = "posvel"
+    a, b = "trs", "kepler"
+    width = 6
+    cls_name = "PosVelArray"
+    anomalies = True      # the second system has .M / .f
+    terms = True          # the model's value terms can be evaluated (no attribute like ref_pos involved)
+
+    def __init__(self, factory, gen_elements=None):
+        self.factory = factory
+        self.gen_elements = gen_elements
+        self.other = {self.a: self.b, self.b: self.a}
+        self.sys = {"t": self.a, "k": self.b}
+        self.tok = {self.a: "t", self.b: "k"}
+
+    def make(self, arr, system, like=None):
+        return self.factory(arr, system)
+
+    def gen_rows(self, rng, system, rows):
+        els = np.array([self.gen_elements(rng) for _ in range(rows)], dtype=float)
+        if system == "trs":
+            # (a (1, 6) Kepler array converts to a (6,) state: `np.squeeze` in kepler2trs)
+            els = np.array(np.asarray(self.factory(els, "kepler").trs, dtype=float), copy=True).reshape(-1, 6)
+        return els
+
+    def gen_elem(self, rng, system, col, old):
+        return self.gen_elements(rng)[col] if system == "kepler" else float(old) * (1 + 1e-4 * rng.choice([-1, 1]))
+
+
+class PositionFamily(Family):
+    name = "position"
+    a, b = "trs", "llh"
+    width = 3
+    cls_name = "PositionArray"
+    anomalies = False
+
+    def _llh(self, rng):
+        return [rng.uniform(-1.5, 1.5), rng.uniform(-3.1, 3.1), rng.uniform(-100.0, 9000.0)]
+
+    def gen_rows(self, rng, system, rows):
+        els = np.array([self._llh(rng) for _ in range(rows)], dtype=float)
+        if system == "trs":
+            els = np.array(np.asarray(self.factory(els, "llh").trs, dtype=float), copy=True).reshape(-1, 3)
+        return els
+
+    def gen_elem(self, rng, system, col, old):
+        return self._llh(rng)[col] if system == "llh" else float(old) * (1 + 1e-4 * rng.choice([-1, 1]))
+
+
+class PositionDeltaFamily(Family):
+    """position deltas: trs <-> enu through the reference position, which every new array takes from the object it is
+    made for (`like`) or from a fixed list of sites"""
+    name = "posdelta"
+    a, b = "trs", "enu"
+    width = 3
+    cls_name = "PositionDeltaArray"
+    anomalies = False
+    terms = False
+    SITES = [[3771793.968, 140253.342, 5124304.349], [2102928.189, 721619.617, 5958196.398], [-2390024.1, 5564663.2, 1994709.3],
+             [4075539.8, 931735.3, 4801629.4], [-4460996.1, 2682557.1, -3674443.9], [1130773.8, -4831253.6, 3994200.4]]
+
+    def __init__(self, factory, position):
+        super().__init__(factory)
+        self.position = position
+
+    def make(self, arr, system, like=None):
+        arr = np.asarray(arr, dtype=float)
+        if like is not None:
+            ref = self.position(np.array(np.asarray(like.ref_pos.trs, dtype=float), copy=True), "trs")
+        else:
+            sites = np.array(self.SITES)
+            ref = self.position(sites[0].copy() if arr.ndim == 1 else np.array([sites[i % 6] for i in range(arr.shape[0])]), "trs")
+        return self.factory(arr, system, ref_pos=ref)
+
+    def gen_rows(self, rng, system, rows):
+        return np.array([[rng.uniform(-100, 100) for _ in range(3)] for _ in range(rows)], dtype=float)
+
+    def gen_elem(self, rng, system, col, old):
+        return rng.uniform(-100, 100)
+
 
 
 # ------------------------------------------------------------------ keys
@@ -55,10 +137,10 @@ def key_of(tok: str):
     raise ValueError(tok)
 
 
-def fresh_conv(PosVel, contents, system):
+def fresh_conv(fam, contents, system, like=None):
     """conversion of an object built now from these contents (the reference every read is compared with)"""
-    o = PosVel(np.array(contents, dtype=float, copy=True), system)
-    return np.array(np.asarray(o.to_system(OTHER[system]), dtype=float), copy=True)
+    o = fam.make(np.array(contents, dtype=float, copy=True), system, like)
+    return np.array(np.asarray(o.to_system(fam.other[system]), dtype=float), copy=True)
 
 
 def same(a, b, tol=1e-12):
@@ -76,8 +158,8 @@ def same(a, b, tol=1e-12):
 
 # ------------------------------------------------------------------ the executor
 class Hist:
-    def __init__(self, PosVel):
-        self.PosVel = PosVel
+    def __init__(self, fam):
+        self.fam = fam
         self.objs = []        # the real objects, kept alive
         self.shadow = []      # plain ndarray (views of plain blocks) with the contents each object must have
         self.system = []
@@ -118,15 +200,15 @@ class Hist:
             a = self.lits[int(p[2])]
             sh = np.array(a, copy=True)
             self.nblocks += 1
-            return self._add(self.PosVel(np.array(a, copy=True), SYS[p[1]]), sh, SYS[p[1]], None, self.nblocks - 1)
+            return self._add(self.fam.make(np.array(a, copy=True), self.fam.sys[p[1]]), sh, self.fam.sys[p[1]], None, self.nblocks - 1)
         o = int(p[1])
         if p[0] == "c":
-            res = self.objs[o].to_system(OTHER[self.system[o]])
+            res = self.objs[o].to_system(self.fam.other[self.system[o]])
             self.filled[o] = step
             j = self.index_of(res)
             if j is None:
                 self.nblocks += 1
-                j = self._add(res, np.array(np.asarray(res, dtype=float), copy=True), OTHER[self.system[o]], o, self.nblocks - 1)
+                j = self._add(res, np.array(np.asarray(res, dtype=float), copy=True), self.fam.other[self.system[o]], o, self.nblocks - 1)
             return j
         if p[0] == "o":      # to_system(own system): the object itself
             res = self.objs[o].to_system(self.system[o])
@@ -154,7 +236,7 @@ class Hist:
     def snapshot(self):
         out = []
         for j, o in enumerate(self.objs):
-            c = o._cache.get(OTHER[self.system[j]])
+            c = o._cache.get(self.fam.other[self.system[j]])
             ci = "-" if c is None else (self.index_of(c) if self.index_of(c) is not None else "x")
             own = o._cache.get(self.system[j])
             # live dependents that are PosVel arrays, as a set (the code registers a view
@@ -163,14 +245,14 @@ class Hist:
             deps = []
             for w in o._dependent_objs:
                 d = w()
-                if d is None or getattr(d, "cls_name", None) != "PosVelArray":
+                if d is None or getattr(d, "cls_name", None) != self.fam.cls_name:
                     continue
                 dj = self.index_of(d)
                 dj = "x" if dj is None else dj
                 if dj not in deps:
                     deps.append(dj)
             deps = ".".join(str(x) for x in sorted(deps, key=lambda x: (isinstance(x, str), x)))   # as a set
-            out.append(f"{SYSTOK[self.system[j]]}:{ci}{'' if own is None else '!own-system-cached'}:{deps}")
+            out.append(f"{self.fam.tok[self.system[j]]}:{ci}{'' if own is None else '!own-system-cached'}:{deps}")
         return ",".join(out)
 
     def relation(self, o):
@@ -188,16 +270,12 @@ class Hist:
 
 
 # ------------------------------------------------------------------ generation
-def gen_literal(h: Hist, rng, system, shape, gen_elements):
-    """an array of the given shape holding valid states / elements of `system`"""
+def gen_literal(h: Hist, rng, system, shape, gen_elements=None):
+    """an array of the given shape holding valid states / elements / coordinates of `system`"""
     if len(shape) == 0:
         raise ValueError
     rows = 1 if len(shape) == 1 else shape[0]
-    els = np.array([gen_elements(rng) for _ in range(max(rows, 1))], dtype=float)
-    if system == "trs":
-        # (a (1, 6) Kepler array converts to a (6,) state: `np.squeeze` in kepler2trs)
-        els = np.array(np.asarray(h.PosVel(els, "kepler").trs, dtype=float), copy=True).reshape(-1, 6)
-    els = els[:rows]
+    els = h.fam.gen_rows(rng, system, max(rows, 1))[:rows]
     return els[0] if len(shape) == 1 else els
 
 
@@ -207,25 +285,25 @@ def gen_set(h: Hist, rng, o, gen_elements):
     if sh.ndim == 1:
         kind = rng.choice(["a", "a", "e"])
         if kind == "a":
-            return f"s:{o}:a:{h.lit(gen_literal(h, rng, system, (6,), gen_elements))}"
-        col = rng.randrange(6)
-        new = gen_elements(rng)[col] if system == "kepler" else float(sh[col]) * (1 + 1e-4 * rng.choice([-1, 1]))
+            return f"s:{o}:a:{h.lit(gen_literal(h, rng, system, (h.fam.width,), gen_elements))}"
+        col = rng.randrange(h.fam.width)
+        new = h.fam.gen_elem(rng, system, col, sh[col])
         return f"s:{o}:i{col}:{h.lit(new)}"
     n = sh.shape[0]
     kind = rng.choice(["a", "a", "i", "i", "s", "e", "l"])
     if kind == "a" or n == 0:
         return f"s:{o}:a:{h.lit(gen_literal(h, rng, system, sh.shape, gen_elements))}"
     if kind == "i":
-        return f"s:{o}:i{rng.randrange(n)}:{h.lit(gen_literal(h, rng, system, (6,), gen_elements))}"
+        return f"s:{o}:i{rng.randrange(n)}:{h.lit(gen_literal(h, rng, system, (h.fam.width,), gen_elements))}"
     if kind == "s":
         a = rng.randrange(n)
         b = rng.randint(a + 1, n)
-        return f"s:{o}:s{a}-{b}:{h.lit(gen_literal(h, rng, system, (b - a, 6), gen_elements))}"
+        return f"s:{o}:s{a}-{b}:{h.lit(gen_literal(h, rng, system, (b - a, h.fam.width), gen_elements))}"
     if kind == "l":
         rows = sorted(rng.sample(range(n), rng.randint(1, n)))
-        return f"s:{o}:l{'.'.join(map(str, rows))}:{h.lit(gen_literal(h, rng, system, (len(rows), 6), gen_elements))}"
-    r, col = rng.randrange(n), rng.randrange(6)
-    new = gen_elements(rng)[col] if system == "kepler" else float(sh[r, col]) * (1 + 1e-4 * rng.choice([-1, 1]))
+        return f"s:{o}:l{'.'.join(map(str, rows))}:{h.lit(gen_literal(h, rng, system, (len(rows), h.fam.width), gen_elements))}"
+    r, col = rng.randrange(n), rng.randrange(h.fam.width)
+    new = h.fam.gen_elem(rng, system, col, sh[r, col])
     return f"s:{o}:e{r}.{col}:{h.lit(new)}"
 
 
@@ -238,9 +316,10 @@ def gen_view(h: Hist, rng, o):
 
 
 def gen_new(h: Hist, rng, gen_elements, system=None, shape=None):
-    system = system or rng.choice(["trs", "kepler"])
-    shape = shape or rng.choice([(6,), (1, 6), (2, 6), (3, 6), (4, 6)])
-    return f"n:{SYSTOK[system]}:{h.lit(gen_literal(h, rng, system, shape, gen_elements))}"
+    w = h.fam.width
+    system = system or rng.choice([h.fam.a, h.fam.b])
+    shape = shape or rng.choice([(w,), (1, w), (2, w), (3, w), (4, w)])
+    return f"n:{h.fam.tok[system]}:{h.lit(gen_literal(h, rng, system, shape, gen_elements))}"
 
 
 TEMPLATES = ["kept-result:all", "kept-result:row", "kept-result:view", "kept-result:view-of-view", "result-written",
@@ -250,17 +329,18 @@ TEMPLATES = ["kept-result:all", "kept-result:row", "kept-result:view", "kept-res
 def next_ops(h: Hist, rng, template, gen_elements):
     """generator of operation tokens; looks at the store built so far"""
     if template.startswith("kept-result") or template.startswith("result-written") or template == "own:view" or template == "chain":
-        sysm = rng.choice(["trs", "kepler"])
+        sysm = rng.choice([h.fam.a, h.fam.b])
+        w = h.fam.width
         how = template.split(":")[1] if ":" in template else "all"
         need2d = how in ("row", "view", "view-of-view")
-        shape = rng.choice([(2, 6), (3, 6), (4, 6)]) if need2d else rng.choice([(6,), (1, 6), (3, 6), (6, 6)])
+        shape = rng.choice([(2, w), (3, w), (4, w)]) if need2d else rng.choice([(w,), (1, w), (3, w), (w, w)])
         yield gen_new(h, rng, gen_elements, sysm, shape)
         yield "c:0"                              # object 1 = the conversion, kept
         n = h.shadow[0].shape[0] if len(shape) == 2 else 0
         if template.startswith("kept-result"):
             target = 0
             if how == "row":
-                yield f"s:0:i{rng.randrange(n)}:{h.lit(gen_literal(h, rng, sysm, (6,), gen_elements))}"
+                yield f"s:0:i{rng.randrange(n)}:{h.lit(gen_literal(h, rng, sysm, (h.fam.width,), gen_elements))}"
             else:
                 if how in ("view", "view-of-view"):
                     yield gen_view(h, rng, 0) if how == "view" else f"v:0:s0-{n}"
@@ -358,7 +438,7 @@ def eval_term(t, h: Hist):
             return np.array(h.lits[int(t[1:])], dtype=float, copy=True)
         raise ValueError(t)
     if t[0] == "C":      # C(sys, t): t converted *to* system sys
-        return fresh_conv(h.PosVel, eval_term(t[2], h), OTHER[SYS[t[1]]])
+        return fresh_conv(h.fam, eval_term(t[2], h), h.fam.other[h.fam.sys[t[1]]])
     if t[0] == "G":
         return np.array(eval_term(t[2], h)[key_of(t[1])], copy=True)
     if t[0] == "P":      # P(key, v, t): t with t[key] = v
@@ -371,10 +451,12 @@ def eval_term(t, h: Hist):
 
 
 # ------------------------------------------------------------------ one history: oracle + correspondence
-def run_history(ctx, PosVel, GM, template, gen_elements=None, recorded=None):
+def run_history(ctx, fam, GM, template, gen_elements=None, recorded=None):
     """runs a generated (template) or a recorded ({'ops': [...], 'lits': {...}}) history"""
     rng = ctx.rng
-    h = Hist(PosVel)
+    h = Hist(fam)
+    pre = "history:" if fam.name == "posvel" else f"history:{fam.name}:"
+    cnt = "hist-" if fam.name == "posvel" else f"hist-{fam.name}-"
     if recorded is not None:
         h.lits = {int(k): np.array(v, dtype=float) for k, v in recorded["lits"].items()}
         source = iter(recorded["ops"])
@@ -383,57 +465,60 @@ def run_history(ctx, PosVel, GM, template, gen_elements=None, recorded=None):
     rets, snaps = [], []
 
     def case():
-        return {"fn": "history", "template": template, "ops": list(h.ops),
+        return {"fn": "history", "family": fam.name, "template": template, "ops": list(h.ops),
                 "lits": {str(k): np.asarray(v).tolist() for k, v in h.lits.items()}}
 
     for tok in source:
         try:
             ret = h.apply(tok)
         except Exception as e:  # noqa: BLE001 - any exception of the real code is an outcome
-            gviolate(ctx, f"history:raises:{tok.split(':')[0]}:{type(e).__name__}", f"operation {tok} of the history raised {type(e).__name__}: {e}", case())
+            gviolate(ctx, f"{pre}raises:{tok.split(':')[0]}:{type(e).__name__}", f"operation {tok} of the history raised {type(e).__name__}: {e}", case())
             return h
         rets.append("-" if ret is None else str(ret))
         snaps.append(h.snapshot())
-        ctx.count("hist-op:" + tok.split(":")[0] + (":" + tok.split(":")[2][0] if tok[0] in "vs" else ""))
+        ctx.count(cnt + "op:" + tok.split(":")[0] + (":" + tok.split(":")[2][0] if tok[0] in "vs" else ""))
         if tok[0] == "c":
             o = int(tok.split(":")[1])
             check_read(ctx, h, o, ret, case)
         if tok[0] == "o" and ret != int(tok.split(":")[1]):
-            gviolate(ctx, "history:own-system", f"to_system(own system) of object {tok.split(':')[1]} handed out another object (history {' '.join(h.ops)})", case())
+            gviolate(ctx, pre + "own-system", f"to_system(own system) of object {tok.split(':')[1]} handed out another object (history {' '.join(h.ops)})", case())
     # every object still holds what the plain-NumPy replay of the writes says, and converts accordingly
     for o in range(len(h.objs)):
         if not same(np.asarray(h.objs[o], dtype=float), h.shadow[o], tol=0.0):
-            gviolate(ctx, "history:contents", f"object {o} of the history holds {np.asarray(h.objs[o]).ravel()[:6].tolist()} but the writes made to it give "
+            gviolate(ctx, pre + "contents", f"object {o} of the history holds {np.asarray(h.objs[o]).ravel()[:6].tolist()} but the writes made to it give "
                      f"{h.shadow[o].ravel()[:6].tolist()}", {**case(), "object": o})
     for o in range(len(h.objs)):
         ret = h.apply(f"c:{o}")
         rets.append(str(ret))
         snaps.append(h.snapshot())
         check_read(ctx, h, o, ret, case, final=True)
-    ctx.count(f"hist-template:{template}")
-    ctx.count(f"hist-objects:{min(len(h.objs), 8)}")
+    ctx.count(f"{cnt}template:{template}")
+    ctx.count(f"{cnt}objects:{min(len(h.objs), 8)}")
     model_history(ctx, h, rets, snaps, case, GM)
     return h
 
 
 def check_read(ctx, h: Hist, o, ret, case, final=False):
     """objs[o].to_system(other) handed out object `ret`: its values are the conversion of o's current contents"""
+    fam = h.fam
+    pre = "history:" if fam.name == "posvel" else f"history:{fam.name}:"
+    OTHER = fam.other
     got = np.asarray(h.objs[ret], dtype=float)
-    want = fresh_conv(h.PosVel, h.shadow[o], h.system[o])
+    want = fresh_conv(fam, h.shadow[o], h.system[o], like=h.objs[o])
     rel = h.relation(o)
-    ctx.count(f"hist-read:{rel}")
+    ctx.count(("hist-" if fam.name == "posvel" else f"hist-{fam.name}-") + f"read:{rel}")
     if not same(got, want):
         w = 0
         if got.shape == want.shape and got.ndim == 2:   # show the row that differs most
             with np.errstate(invalid="ignore"):
                 w = int(np.nanargmax(np.max(np.abs(got - want) / np.maximum(1.0, np.abs(want)), axis=1)))
-        row = (lambda a: np.asarray(a).reshape(-1, 6)[w].tolist() if np.asarray(a).size >= 6 * (w + 1) else np.ravel(a)[:6].tolist())
-        gviolate(ctx, f"history:stale-conversion:{rel}",
+        row = (lambda a: np.asarray(a).reshape(-1, fam.width)[w].tolist() if np.asarray(a).size >= fam.width * (w + 1) else np.ravel(a)[:6].tolist())
+        gviolate(ctx, f"{pre}stale-conversion:{rel}",
                  f"object {o} ({h.system[o]}, shape {h.shadow[o].shape}, row {w}: {row(h.shadow[o])}) converted to {OTHER[h.system[o]]} gives "
                  f"{row(got)} but an object built from its current contents gives {row(want)} "
                  f"(history {' '.join(h.ops)})", {**case(), "object": o})
     # the anomalies of the Kepler side belong to the elements it holds now
-    for j in (o, ret):
+    for j in ((o, ret) if fam.anomalies else ()):
         if h.system[j] != "kepler":
             continue
         el = h.shadow[j] if j == o else want
@@ -454,35 +539,37 @@ def check_read(ctx, h: Hist, o, ret, case, final=False):
 def model_history(ctx, h: Hist, rets, snaps, case, GM):
     """the Lean store executes the same operations"""
     drv = ctx.driver
+    fam = h.fam
     ans = drv.ask1("c07 hist " + " ".join(h.ops))
     if ans is None or ans.startswith("?") or "|" not in ans:
-        gdisagree(ctx, "PosVel cache/view store: history rejected by the model", case(), ans, rets)
+        gdisagree(ctx, f"{fam.name} cache/view store: history rejected by the model", case(), ans, rets)
         return
     steps, _, terms = ans.partition(" || ")
     msteps = steps.split(" ; ")
     impl_steps = [f"{r} | {s}" for r, s in zip(rets, snaps)]
     if msteps != impl_steps:
         first = next((i for i, (a, b) in enumerate(zip(msteps, impl_steps)) if a != b), min(len(msteps), len(impl_steps)))
-        gdisagree(ctx, "PosVel cache/view store (object handed out, cached conversion, dependents of every object after every step)",
+        gdisagree(ctx, f"{fam.name} cache/view store (object handed out, cached conversion, dependents of every object after every step)",
                   {**case(), "first_difference_at_step": first, "op": (h.ops[first] if first < len(h.ops) else None)},
                   msteps[first] if first < len(msteps) else None, impl_steps[first] if first < len(impl_steps) else None)
         return
     mterms = terms.split(" ; ")
     if len(mterms) != len(h.objs):
-        gdisagree(ctx, "PosVel cache/view store: number of objects", case(), len(mterms), len(h.objs))
+        gdisagree(ctx, f"{fam.name} cache/view store: number of objects", case(), len(mterms), len(h.objs))
         return
-    for o, t in enumerate(mterms):
+    for o, t in enumerate(mterms if fam.terms else []):
         try:
             val = eval_term(parse_term(t), h)
         except Exception as e:  # noqa: BLE001
-            gdisagree(ctx, "PosVel cache/view store: value term of the model cannot be evaluated", {**case(), "object": o}, t, f"{type(e).__name__}: {e}")
+            gdisagree(ctx, f"{fam.name} cache/view store: value term of the model cannot be evaluated", {**case(), "object": o}, t, f"{type(e).__name__}: {e}")
             return
         if not same(np.asarray(h.objs[o], dtype=float), val):
-            gdisagree(ctx, "PosVel cache/view store: contents of an object at the end of the history (model term evaluated with fresh conversions)",
+            gdisagree(ctx, f"{fam.name} cache/view store: contents of an object at the end of the history (model term evaluated with fresh conversions)",
                       {**case(), "object": o}, [t, np.ravel(val)[:6].tolist()], np.asarray(h.objs[o], dtype=float).ravel()[:6].tolist())
             return
     # the values handed out, against the Float model of the kernels (rows of the last object pair of the history)
-    float_model_rows(ctx, h, case, GM)
+    if fam.name == "posvel":
+        float_model_rows(ctx, h, case, GM)
 
 
 def angdiff(x, y):
@@ -492,7 +579,7 @@ def angdiff(x, y):
 def float_model_rows(ctx, h: Hist, case, GM):
     drv = ctx.driver
     o = ctx.rng.randrange(len(h.objs))
-    res = h.objs[o].to_system(OTHER[h.system[o]])
+    res = h.objs[o].to_system(h.fam.other[h.system[o]])
     src = np.asarray(h.shadow[o], dtype=float).reshape(-1, 6)
     out = np.asarray(res, dtype=float).reshape(-1, 6)
     for row, got in list(zip(src, out))[:2]:
